@@ -36,6 +36,10 @@ Inductive op :=
 | OLChunk (l : N) (n : N)
 | OLCommit (l : N)
 | OLDrop (l : N)
+(* the async writers' cancellation behaviour (content::write::AsyncWriter::poll_write): [OAbandon] starts a write, polls it
+   once and drops the future; [OWrite1] is one write() call (as opposed to write_all) *)
+| OAbandon (w : N) (d : bytes)
+| OWrite1 (w : N) (d : bytes)
 (* damage / environment steps, applied verbatim to the tree *)
 | DSet (l : loc) (d : bytes)
 | DDel (l : loc)
@@ -56,15 +60,20 @@ Inductive outcome :=
 | Res (r : res val)
 | BadArg.                       (* unknown handle: the harness answers "badarg" too *)
 
+(* the answer of an abandoned write that its writer still holds (AsyncWriter's [last_op]) *)
+Inductive pend := PLen (n : N) | PErr.
+
 Record sstate := mkS0 {
   s_fs : fs;
   s_w : list (N * wstate);
   s_r : list (N * rstate);
-  s_l : list (N * lstate)
+  s_l : list (N * lstate);
+  s_p : list (N * pend)
 }.
-(* a new state that keeps the open linkers of [s] *)
-Definition mkS (s : sstate) (f : fs) (w : list (N * wstate)) (r : list (N * rstate)) : sstate := mkS0 f w r (s_l s).
-Definition sstate0 : sstate := mkS0 [] [] [] [].
+(* a new state that keeps the open linkers and the pending answers of [s] *)
+Definition mkS (s : sstate) (f : fs) (w : list (N * wstate)) (r : list (N * rstate)) : sstate := mkS0 f w r (s_l s) (s_p s).
+Definition set_p (s : sstate) (p : list (N * pend)) : sstate := mkS0 (s_fs s) (s_w s) (s_r s) (s_l s) p.
+Definition sstate0 : sstate := mkS0 [] [] [] [] [].
 
 Fixpoint hget {A} (h : N) (l : list (N * A)) : option A :=
   match l with
@@ -78,6 +87,10 @@ Fixpoint hdel {A} (h : N) (l : list (N * A)) : list (N * A) :=
   end.
 Definition hset {A} (h : N) (v : A) (l : list (N * A)) : list (N * A) := (h, v) :: hdel h l.
 
+Definition clear_p (s : sstate) (w : N) : sstate := set_p s (hdel w (s_p s)).
+Definition with_written (ws : wstate) (n : N) : wstate :=
+  mkW (w_key ws) (w_opts ws) (w_algo ws) (w_tmp ws) (w_map ws) (w_pos ws) n (w_data ws).
+
 Definition rmap {A B} (g : A -> B) (r : res A) : res B :=
   match r with
   | Ok a => Ok (g a) | Err e => Err e | Panic => Panic | Hang => Hang | Stuck => Stuck
@@ -89,6 +102,59 @@ Variable hash : algo -> bytes -> bytes.
 Definition runv {A} (s : sstate) (p : prog (res A)) (g : A -> val) : outcome * sstate :=
   let '(r, f) := run p (s_fs s) in (Res (rmap g r), mkS s f (s_w s) (s_r s)).
 
+(* one chunk through a writer that holds no pending answer *)
+Definition plain_chunk (s : sstate) (w : N) (ws : wstate) (d : bytes) : outcome * sstate :=
+  let '(r, f) := run (write_chunk ws d) (s_fs s) in
+  match r with
+  | Ok ws' => (Res (Ok (VNum (lenN d))), mkS s f (hset w ws' (s_w s)) (s_r s))
+  | other => (Res (rmap (fun _ => VUnit) other), mkS s f (s_w s) (s_r s))
+  end.
+
+(* the writer acknowledges [n] bytes (put::Writer::poll_write adds the inner answer to [written]) *)
+Definition ack (s : sstate) (w : N) (ws : wstate) (n : N) : sstate :=
+  mkS s (s_fs s) (hset w (with_written ws (w_written ws + n)) (s_w s)) (s_r s).
+
+(* poll_write starts an operation: the blocking task stores and hashes the chunk whether or not anybody waits for it;
+   nothing is acknowledged; the answer stays in the writer *)
+Definition start_abandoned (s : sstate) (w : N) (ws : wstate) (d : bytes) : outcome * sstate :=
+  let '(r, f) := run (write_chunk ws d) (s_fs s) in
+  match r with
+  | Ok ws' => (Res (Ok VUnit), set_p (mkS s f (hset w (with_written ws' (w_written ws)) (s_w s)) (s_r s)) (hset w (PLen (lenN d)) (s_p s)))
+  | _ => (Res (Ok VUnit), set_p (mkS s f (s_w s) (s_r s)) (hset w PErr (s_p s)))
+  end.
+
+(* one write() call on a writer that holds the answer [p] of an abandoned write: an answer that fits the new buffer is
+   handed out as this call's answer (nothing is stored); a longer one is discarded and the call proceeds *)
+Definition write1_pending (s : sstate) (w : N) (ws : wstate) (p : pend) (d : bytes) : outcome * sstate :=
+  let s1 := clear_p s w in
+  match p with
+  | PErr => (Res (Err EIoErr), s1)
+  | PLen n => if n <=? lenN d then (Res (Ok (VNum n)), ack s1 w ws n) else plain_chunk s1 w ws d
+  end.
+
+(* write_all on such a writer: write() until the buffer is empty; an answer of 0 bytes for a non-empty buffer is WriteZero *)
+Definition write_all_pending (s : sstate) (w : N) (ws : wstate) (p : pend) (d : bytes) : outcome * sstate :=
+  match d with
+  | [] => (Res (Ok (VNum 0)), s)               (* no write() call at all: the answer stays *)
+  | _ =>
+      let s1 := clear_p s w in
+      match p with
+      | PErr => (Res (Err EIoErr), s1)
+      | PLen n =>
+          if n <=? lenN d then
+            if n =? 0 then (Res (Err EIoErr), s1)
+            else
+              let s2 := ack s1 w ws n in
+              match dropN n d with
+              | [] => (Res (Ok (VNum (lenN d))), s2)
+              | rest =>
+                  let '(o, s3) := plain_chunk s2 w (with_written ws (w_written ws + n)) rest in
+                  (match o with Res (Ok _) => Res (Ok (VNum (lenN d))) | x => x end, s3)
+              end
+          else plain_chunk s1 w ws d
+      end
+  end.
+
 Definition step (s : sstate) (o : op) (now : N) : outcome * sstate :=
   match o with
   | OWrite fl a key data => runv s (write hash fl a key data now) VSri
@@ -96,17 +162,36 @@ Definition step (s : sstate) (o : op) (now : N) : outcome * sstate :=
   | OOpen fl w key o =>
       let '(r, f) := run (open_writer fl key o) (s_fs s) in
       match r with
-      | Ok ws => (Res (Ok VUnit), mkS s f (hset w ws (s_w s)) (s_r s))
+      | Ok ws => (Res (Ok VUnit), clear_p (mkS s f (hset w ws (s_w s)) (s_r s)) w)
       | other => (Res (rmap (fun _ => VUnit) other), mkS s f (s_w s) (s_r s))
       end
   | OChunk w d =>
       match hget w (s_w s) with
       | None => (BadArg, s)
       | Some ws =>
-          let '(r, f) := run (write_chunk ws d) (s_fs s) in
-          match r with
-          | Ok ws' => (Res (Ok (VNum (lenN d))), mkS s f (hset w ws' (s_w s)) (s_r s))
-          | other => (Res (rmap (fun _ => VUnit) other), mkS s f (s_w s) (s_r s))
+          match hget w (s_p s) with
+          | None => plain_chunk s w ws d
+          | Some p => write_all_pending s w ws p d
+          end
+      end
+  | OWrite1 w d =>
+      match hget w (s_w s) with
+      | None => (BadArg, s)
+      | Some ws =>
+          match hget w (s_p s) with
+          | None => plain_chunk s w ws d
+          | Some p => write1_pending s w ws p d
+          end
+      end
+  | OAbandon w d =>
+      match hget w (s_w s) with
+      | None => (BadArg, s)
+      | Some ws =>
+          match hget w (s_p s) with
+          | Some PErr => (Res (Err EIoErr), clear_p s w)
+          | Some (PLen n) => if n <=? lenN d then (Res (Ok (VNum n)), ack (clear_p s w) w ws n)
+                             else start_abandoned (clear_p s w) w ws d
+          | None => start_abandoned s w ws d
           end
       end
   | OCommit w =>
@@ -114,14 +199,14 @@ Definition step (s : sstate) (o : op) (now : N) : outcome * sstate :=
       | None => (BadArg, s)
       | Some ws =>
           let '(r, f) := run (commit hash ws now) (s_fs s) in
-          (Res (rmap VSri r), mkS s f (hdel w (s_w s)) (s_r s))
+          (Res (rmap VSri r), clear_p (mkS s f (hdel w (s_w s)) (s_r s)) w)
       end
   | ODrop w =>
       match hget w (s_w s) with
       | None => (BadArg, s)
       | Some ws =>
           let '(r, f) := run (drop_writer ws) (s_fs s) in
-          (Res (Ok VUnit), mkS s f (hdel w (s_w s)) (s_r s))
+          (Res (Ok VUnit), clear_p (mkS s f (hdel w (s_w s)) (s_r s)) w)
       end
   | OInsert _ key o => runv s (insert hash key o now) VSri
   | ODelete _ key => runv s (delete hash key now) (fun _ => VUnit)
@@ -172,26 +257,26 @@ Definition step (s : sstate) (o : op) (now : N) : outcome * sstate :=
   | OLOpen _ l plain key o target =>
       let '(r, f) := run (open_linker plain key o target) (s_fs s) in
       match r with
-      | Ok ls => (Res (Ok VUnit), mkS0 f (s_w s) (s_r s) (hset l ls (s_l s)))
+      | Ok ls => (Res (Ok VUnit), mkS0 f (s_w s) (s_r s) (hset l ls (s_l s)) (s_p s))
       | other => (Res (rmap (fun _ => VUnit) other), mkS s f (s_w s) (s_r s))
       end
   | OLChunk l n =>
       match hget l (s_l s) with
       | None => (BadArg, s)
       | Some ls => let '(c, ls') := lchunk ls n in
-                   (Res (Ok (VBytes c)), mkS0 (s_fs s) (s_w s) (s_r s) (hset l ls' (s_l s)))
+                   (Res (Ok (VBytes c)), mkS0 (s_fs s) (s_w s) (s_r s) (hset l ls' (s_l s)) (s_p s))
       end
   | OLCommit l =>
       match hget l (s_l s) with
       | None => (BadArg, s)
       | Some ls =>
           let '(r, f) := run (commit_linker hash ls now) (s_fs s) in
-          (Res (rmap VSri r), mkS0 f (s_w s) (s_r s) (hdel l (s_l s)))
+          (Res (rmap VSri r), mkS0 f (s_w s) (s_r s) (hdel l (s_l s)) (s_p s))
       end
   | OLDrop l =>
       match hget l (s_l s) with
       | None => (BadArg, s)
-      | Some _ => (Res (Ok VUnit), mkS0 (s_fs s) (s_w s) (s_r s) (hdel l (s_l s)))
+      | Some _ => (Res (Ok VUnit), mkS0 (s_fs s) (s_w s) (s_r s) (hdel l (s_l s)) (s_p s))
       end
   | DSet l d => (Res (Ok VUnit), mkS s (update (s_fs s) l (File d)) (s_w s) (s_r s))
   | DDel l => (Res (Ok VUnit), mkS s (remove (s_fs s) l) (s_w s) (s_r s))
@@ -211,7 +296,11 @@ Definition step_crash (s : sstate) (o : op) (now : N) : list fs :=
   | OWrite fl a key data => crash_states (write hash fl a key data now) f
   | OWriteHash fl a data => crash_states (write_hash hash fl a data) f
   | OOpen fl w key o => crash_states (open_writer fl key o) f
-  | OChunk w d => match hget w (s_w s) with Some ws => crash_states (write_chunk ws d) f | None => [f] end
+  | OChunk w d | OWrite1 w d | OAbandon w d =>
+      match hget w (s_w s), hget w (s_p s) with
+      | Some ws, None => crash_states (write_chunk ws d) f
+      | _, _ => [f]            (* with a pending answer the steps depend on it: not used for crash comparison *)
+      end
   | OCommit w => match hget w (s_w s) with Some ws => crash_states (commit hash ws now) f | None => [f] end
   | ODrop w => match hget w (s_w s) with Some ws => crash_states (drop_writer ws) f | None => [f] end
   | OInsert _ key o => crash_states (insert hash key o now) f
@@ -329,6 +418,8 @@ Definition parse_op (ts : list bytes) : option op :=
       else None
   | [c; a; b] =>
       if tok_is "wchunk" c then do w <- tok_num a; do d <- tok_bytes b; Some (OChunk w d)
+      else if tok_is "wwrite" c then do w <- tok_num a; do d <- tok_bytes b; Some (OWrite1 w d)
+      else if tok_is "wabandon" c then do w <- tok_num a; do d <- tok_bytes b; Some (OAbandon w d)
       else if tok_is "rchunk" c then do r <- tok_num a; do n <- tok_num b; Some (ORChunk r n)
       else if tok_is "lchunk" c then do l <- tok_num a; do n <- tok_num b; Some (OLChunk l n)
       else if tok_is "delete" c then do fl <- tok_fl a; do k <- tok_bytes b; Some (ODelete fl k)
